@@ -11,7 +11,7 @@ from checklib import props  # noqa
 hooks_commits = []
 hp = os.path.join(ROOT, "hooks_commits.txt")
 if os.path.exists(hp):
-    hooks_commits = [l.strip() for l in open(hp) if l.strip() and not l.startswith("#")]
+    hooks_commits = [l.split()[0] for l in open(hp) if l.strip() and not l.startswith("#")]
 
 m = {
     "version": 1,
@@ -37,6 +37,15 @@ m = {
     "notes": "Every check: ./check <id> --tier <tier>. See DESIGN.md. Known, unrepaired defects are listed in "
              "known_findings.json and reported as KNOWN-FINDING lines.",
 }
+ready = set()
+rp = os.path.join(ROOT, "checklib", "ready.txt")
+if os.path.exists(rp):
+    ready = {l.split()[0] for l in open(rp) if l.strip() and not l.startswith("#")}
+for pid in list(props.PROPS):
+    if pid not in ready:   # registry file exists but the coordinator has not accepted the check yet
+        del props.PROPS[pid]
+for e in m["engines"]:
+    e["serves_properties"] = sorted(props.PROPS)
 for pid in sorted(props.PROPS):
     s = props.PROPS[pid]
     m["checks"].append({
